@@ -430,7 +430,7 @@ theorem iter_operation (cx : Btclib.Ctx) (t : Nat) (ht : t = 0x88 âˆ¨ t = 0x87 â
     (simp only [iter, Gen.Script.N_MAX_STACK_SIZE, gt_iff_lt, hsz, if_false, hexec]
      by_cases hc : cnt + 1 > 201
      Â· simp [count_spec, hc, kind]
-     Â· simp [count_spec, hc, kind, Gen.Script.DISABLED_OP_CODES, Gen.Script.EVALUATED_WHEN_UNEXECUTED_LO,
+     Â· simp [count_spec, hc, kind, dispatch, Gen.Script.DISABLED_OP_CODES, Gen.Script.EVALUATED_WHEN_UNEXECUTED_LO,
          Gen.Script.EVALUATED_WHEN_UNEXECUTED_HI]
        cases operation cx _ stack alt with
        | none => rfl
